@@ -780,11 +780,27 @@ struct Exec : public crab::cfg::statement_visitor<label_t, number_t, varname_t> 
     v.arr = d;
     f.st.set(s.array(), v);
   }
+  // a single-cell store may create a cell up to 64 elements beyond the range that
+  // array_init initialised (crab arrays are unbounded maps; only reads of
+  // never-written cells are outside the model)
+  bool check_store_idx(const ArrData &d, const mpz_class &i, long esz) {
+    if (esz != d.esz) {
+      m.outside("non-uniform element size");
+      return false;
+    }
+    if (i < d.lb || i > d.ub + 64 * esz || ((i - d.lb) % esz) != 0) {
+      m.outside("array store index below the initialised range, far beyond it or unaligned");
+      return false;
+    }
+    return true;
+  }
   bool check_idx(const ArrData &d, const mpz_class &i, long esz) {
     if (esz != d.esz) {
       m.outside("non-uniform element size");
       return false;
     }
+    if (d.cells.find(i) != d.cells.end() && i > d.ub && ((i - d.lb) % esz) == 0)
+      return true; // a cell created by a store beyond the initialised range
     if (i < d.lb || i > d.ub || ((i - d.lb) % esz) != 0 || d.cells.find(i) == d.cells.end()) {
       m.outside("array index out of the initialised range or unaligned");
       return false;
@@ -802,13 +818,13 @@ struct Exec : public crab::cfg::statement_visitor<label_t, number_t, varname_t> 
       return;
     auto nd = std::make_shared<ArrData>(*d);
     if (s.lb_index().equal(s.ub_index())) {
-      if (!check_idx(*nd, lb, esz))
+      if (!check_store_idx(*nd, lb, esz))
         return;
+      nd->cells[lb] = val;
       if (s.is_strong_update() && nd->cells.size() != 1) {
         m.outside("is_strong_update on a multi-cell array");
         return;
       }
-      nd->cells[lb] = val;
     } else {
       if (ub < lb) {
         m.outside("empty store range");
